@@ -742,12 +742,15 @@ def _exec(stmts, env, max_steps=2000):
                 continue
             if isinstance(s, ast.AugAssign) and isinstance(s.op, (ast.Add, ast.Sub)) and isinstance(s.target, (ast.Attribute, ast.Subscript)):
                 cur_ = evaluate(s.target, env); d_ = evaluate(s.value, env)
+                if isinstance(cur_, list) and isinstance(s.op, ast.Add): cur_.extend(list(d_)); assign(s.target, cur_); continue       # list += ... extends the list in place (aliases see it)
                 assign(s.target, cur_ + d_ if isinstance(s.op, ast.Add) else cur_ - d_); continue
             if isinstance(s, ast.AugAssign) and isinstance(s.op, (ast.BitOr, ast.BitAnd)) and isinstance(s.target, (ast.Name, ast.Attribute, ast.Subscript)):
                 cur_ = evaluate(s.target, env); d_ = evaluate(s.value, env)
                 assign(s.target, (cur_ | d_) if isinstance(s.op, ast.BitOr) else (cur_ & d_)); continue
             if isinstance(s, ast.AugAssign) and isinstance(s.op, (ast.Add, ast.Sub)) and isinstance(s.target, ast.Name):
-                env[s.target.id] = evaluate(s.target, env) + evaluate(s.value, env) if isinstance(s.op, ast.Add) else evaluate(s.target, env) - evaluate(s.value, env); continue
+                cur_ = evaluate(s.target, env)
+                if isinstance(cur_, list) and isinstance(s.op, ast.Add): cur_.extend(list(evaluate(s.value, env))); assign(s.target, cur_); continue      # in place, as Python does
+                assign(s.target, cur_ + evaluate(s.value, env) if isinstance(s.op, ast.Add) else cur_ - evaluate(s.value, env)); continue
             if isinstance(s, ast.While):
                 broke = False
                 while evaluate(s.test, env):
